@@ -22,6 +22,8 @@ type docArg struct {
 	id     int
 	def    *int
 	form   string // the default as written in the lambda list (a literal or a form with the value *def)
+	ref    int    // -1, or the index of the required parameter the default form refers to: its value is
+	refAdd int    // that parameter's argument + refAdd, so the literal the model sees is set per call
 }
 
 // kwName is the Lisp spelling of the keyword the model calls AKw id.
@@ -54,8 +56,10 @@ func Run(ctx *common.Ctx) {
 		// shape: 0-3 required x 0-2 optional x rest x 0-3 keys x 0-1 aux
 		var ds []docArg
 		next := 0
+		nreq, nopt := ctx.Rng.Intn(4), 0
+		refs := false // some default form refers to a required parameter
 		v := func(withDef bool) docArg {
-			d := docArg{id: next}
+			d := docArg{id: next, ref: -1}
 			next++
 			if withDef && ctx.Rng.Chance(60) {
 				x := 50 + ctx.Rng.Intn(40)
@@ -72,13 +76,25 @@ func Run(ctx *common.Ctx) {
 					x = 700 + k
 					d.form = fmt.Sprintf("(+ zqglobal %d)", k) // a global variable, seen through the scope being built
 					ctx.Hist("default:form")
+				case 2:
+					if nreq > 0 {
+						// a parameter bound earlier, seen in the scope being built: the value differs from call to call
+						d.ref, d.refAdd = ctx.Rng.Intn(nreq), ctx.Rng.Intn(5)
+						d.form = fmt.Sprintf("(+ %s %d)", pnames[d.ref], d.refAdd)
+						if d.refAdd == 0 {
+							d.form = pnames[d.ref]
+						}
+						refs = true
+						ctx.Hist("default:form-referring-to-a-required-parameter")
+					} else {
+						ctx.Hist("default:literal")
+					}
 				default:
 					ctx.Hist("default:literal")
 				}
 			}
 			return d
 		}
-		nreq, nopt := ctx.Rng.Intn(4), 0
 		for i := nreq; i > 0; i-- {
 			ds = append(ds, v(false))
 		}
@@ -120,7 +136,7 @@ func Run(ctx *common.Ctx) {
 		if len(keyIDs) == 0 && hasRest && len(auxIDs) > 0 {
 			kwPool, kwChance = auxIDs, 25
 		}
-		var ll, body, gds []string
+		var ll, body []string
 		bodySpelling := hasRest && ctx.Rng.Chance(35)
 		if bodySpelling {
 			ctx.Hist("rest-spelled-&body")
@@ -133,16 +149,36 @@ func Run(ctx *common.Ctx) {
 				} else {
 					ll = append(ll, d.marker)
 				}
-				gds = append(gds, fmt.Sprintf("{| d_name := %s; d_def := None |}", map[string]string{"&optional": "POptional", "&rest": "PRest", "&key": "PKey", "&aux": "PAux", "&allow-other-keys": "PAllow"}[d.marker]))
 			case d.def != nil:
 				ll = append(ll, fmt.Sprintf("(%s %s)", pnames[d.id], d.form))
-				gds = append(gds, fmt.Sprintf("{| d_name := PVar %d; d_def := Some (%d)%%Z |}", d.id, *d.def))
 				body = append(body, fmt.Sprintf("(if (boundp '%s) %s :unbound)", pnames[d.id], pnames[d.id]))
 			default:
 				ll = append(ll, pnames[d.id])
-				gds = append(gds, fmt.Sprintf("{| d_name := PVar %d; d_def := None |}", d.id))
 				body = append(body, fmt.Sprintf("(if (boundp '%s) %s :unbound)", pnames[d.id], pnames[d.id]))
 			}
+		}
+		// the lambda list as the model sees it in a call whose leading arguments are posInts: a default form that
+		// refers to a required parameter is the literal it evaluates to in THAT call
+		gdsFor := func(posInts []int) []string {
+			var gds []string
+			for _, d := range ds {
+				switch {
+				case d.marker != "":
+					gds = append(gds, fmt.Sprintf("{| d_name := %s; d_def := None |}", map[string]string{"&optional": "POptional", "&rest": "PRest", "&key": "PKey", "&aux": "PAux", "&allow-other-keys": "PAllow"}[d.marker]))
+				case d.def != nil:
+					val := *d.def
+					if d.ref >= 0 {
+						val = 0 // too few arguments: the call is rejected, the default is never used
+						if d.ref < len(posInts) {
+							val = posInts[d.ref] + d.refAdd
+						}
+					}
+					gds = append(gds, fmt.Sprintf("{| d_name := PVar %d; d_def := Some (%d)%%Z |}", d.id, val))
+				default:
+					gds = append(gds, fmt.Sprintf("{| d_name := PVar %d; d_def := None |}", d.id))
+				}
+			}
+			return gds
 		}
 		fn++
 		name := fmt.Sprintf("vfn%d", fn)
@@ -167,7 +203,12 @@ func Run(ctx *common.Ctx) {
 				npos = ctx.Rng.Intn(nreq)
 			}
 			for i := 0; i < npos; i++ {
-				if ctx.Rng.Chance(kwChance) && len(kwPool) > 0 {
+				if refs && i < nreq {
+					// a default form refers to this argument: an integer
+					z := 1 + ctx.Rng.Intn(30)
+					args = append(args, fmt.Sprint(z))
+					gargs = append(gargs, fmt.Sprintf("AInt %d", z))
+				} else if ctx.Rng.Chance(kwChance) && len(kwPool) > 0 {
 					id := common.Pick(ctx.Rng, kwPool)
 					args = append(args, ":"+pnames[id])
 					gargs = append(gargs, fmt.Sprintf("AKw %d", id))
@@ -238,6 +279,22 @@ func Run(ctx *common.Ctx) {
 					}
 				}
 			}
+			// the integers the required parameters get (for the default forms that refer to them)
+			var posInts []int
+			skip := false
+			for i := 0; i < nreq && i < len(gargs); i++ {
+				var z int
+				if _, err := fmt.Sscanf(gargs[i], "AInt %d", &z); err != nil {
+					skip = refs // a keyword or nil where a default form expects a number: not expressible in the model
+					break
+				}
+				posInts = append(posInts, z)
+			}
+			if skip {
+				ctx.Hist("skipped:default-form-would-see-a-non-integer")
+				continue
+			}
+			gds := gdsFor(posInts)
 			call := fmt.Sprintf("(%s %s)", name, strings.Join(args, " "))
 			out := common.EvalTimeout(scope, call, 3*time.Second)
 			if redef && k < 4 {
@@ -302,7 +359,7 @@ func Run(ctx *common.Ctx) {
 		}
 	}
 	ctx.Meta.DistinctNontrivial = len(distinct)
-	ctx.Meta.Rule = "lambda lists: 0-3 required x 0-2 &optional (60% with a default: two thirds a literal, the others a form to evaluate such as (+ 70 4) or (+ zqglobal 4)) x &rest (35%, a third of them spelled &body) x &key with 0-3 keys (50%, a quarter of them with &allow-other-keys) x &aux (25%); the parameter names zqc and zqf are also global variables; per list 14 (thorough 30) argument vectors: required + 0..optional+1 positional integers (10% fewer than required; with &rest half of them 0-3 more; 6% a keyword naming a key parameter instead; 25% a keyword naming the &aux parameter when the list has &rest and &aux but no &key) followed by 0-3 keyword/value pairs (76% a declared key, 8% :allow-other-keys with a true or nil value, 6% the name of some other parameter, 10% an unknown key; 7% missing value, duplicates possible); calls of a lambda list with &allow-other-keys, and a fifth of the others with &key (half when the key section is empty) after a leading :allow-other-keys 1, are permissive: at least one pair, 45% declared, 7% :allow-other-keys, 28% the name of another parameter, 20% unknown; 6% of the other calls start with :allow-other-keys nil :allow-other-keys 1 (the first counts: not permissive) and go on like a permissive one; the body reports every parameter or :unbound; for 45% of the lambda lists the first four calls are repeated through a caller compiled while the function still had another lambda list (redefinition history); distinct = distinct (lambda list, argument vector) pairs"
+	ctx.Meta.Rule = "lambda lists: 0-3 required x 0-2 &optional (60% with a default: half a literal, the others a form to evaluate such as (+ 70 4), (+ zqglobal 4) or (+ zqa 2) with zqa a required parameter - the model then gets the literal that form evaluates to in the call at hand) x &rest (35%, a third of them spelled &body) x &key with 0-3 keys (50%, a quarter of them with &allow-other-keys) x &aux (25%); the parameter names zqc and zqf are also global variables; per list 14 (thorough 30) argument vectors: required + 0..optional+1 positional integers (10% fewer than required; with &rest half of them 0-3 more; 6% a keyword naming a key parameter instead; 25% a keyword naming the &aux parameter when the list has &rest and &aux but no &key) followed by 0-3 keyword/value pairs (76% a declared key, 8% :allow-other-keys with a true or nil value, 6% the name of some other parameter, 10% an unknown key; 7% missing value, duplicates possible); calls of a lambda list with &allow-other-keys, and a fifth of the others with &key (half when the key section is empty) after a leading :allow-other-keys 1, are permissive: at least one pair, 45% declared, 7% :allow-other-keys, 28% the name of another parameter, 20% unknown; 6% of the other calls start with :allow-other-keys nil :allow-other-keys 1 (the first counts: not permissive) and go on like a permissive one; the body reports every parameter or :unbound; for 45% of the lambda lists the first four calls are repeated through a caller compiled while the function still had another lambda list (redefinition history); distinct = distinct (lambda list, argument vector) pairs"
 	header := "From C04 Require Import Model Spec Corr.\nOpen Scope N_scope.\n"
 	footer := "Definition res := Eval vm_compute in check_all cases.\nPrint res.\nDefinition gcount := Eval vm_compute in guard_count cases.\nPrint gcount.\n"
 	ctx.WriteShards("cases", header, "case", footer, terms, descs, 16)
